@@ -132,11 +132,14 @@ Proof.
   destruct (pk <? 0); [finq|].
   destruct ((0 <? c_max_mint cfg) && (c_max_mint cfg <? a)); [finq|].
   rewrite run_bind.
-  assert (Hb : exists wb b, run (if 0 <? c_max_balance cfg then total_balance else Ret (Ok 0)) no_fault w = (wb, Done (Ok b)) /\ same_but_calls w wb).
+  assert (Hb : exists wb rb, run (if 0 <? c_max_balance cfg then total_balance else Ret (Ok 0)) no_fault w = (wb, Done rb) /\ same_but_calls w wb).
   { destruct (0 <? c_max_balance cfg).
-    - unfold total_balance. destruct w as [d l m ac n]. sx. eexists _, _. split; [reflexivity|repeat split].
+    - unfold total_balance. destruct w as [d l m ac n]. sx.
+      destruct (sum_view _); sx; [|eexists _, _; split; [reflexivity|repeat split]].
+      destruct (sum_view _); sx; eexists _, _; (split; [reflexivity|repeat split]).
     - eexists _, _. split; [reflexivity|apply sbc_refl]. }
-  destruct Hb as [wb [b [Hrb [Hdb [Hlb _]]]]]. rewrite Hrb.
+  destruct Hb as [wb [rb [Hrb [Hdb [Hlb _]]]]]. rewrite Hrb.
+  destruct rb as [b|eb]; [|intros H; inversion H; subst; exact Hdb].
   destruct ((0 <? c_max_balance cfg) && (c_max_balance cfg <? add64 b a)); [finq|].
   destruct wb as [d l m ac n]. cbn [w_db w_ln] in *. sx.
   destruct (l_createerr l); [sx; finq|]. sx.
